@@ -81,6 +81,17 @@ def run(chk):
             ids_ = sorted({'id%04d' % rnd.randint(0, 9999) for _ in range(104)}) + ['%s-%d' % (rnd.choice('ABC'), k_) for k_ in range(8)]      # ~110 distinct
             given = ids_ if rnd.random() < 0.5 else {s_: rnd.randint(1, 2) for s_ in ids_}
             kw, sizekw = {}, None
+        elif mode == 1 and i % 400 == 21:
+            # sampling switched off explicitly, more distinct examples than the sampling default (4000): all of them count
+            from tdda.rexpy.rexpy import Size as Size_
+            ids_ = sorted({'%s%05d' % (rnd.choice(['id', 'ID', 'x-']), rnd.randint(0, 99999)) for _ in range(4300)}) + ['%d.%d' % (k_, k_) for k_ in range(9)]
+            given = ids_ if rnd.random() < 0.5 else {s_: rnd.randint(1, 2) for s_ in ids_}
+            kw, sizekw = {'size': rnd.choice([0, False, Size_(use_sampling=False)])}, None
+        elif mode == 3 and i % 40 == 3:
+            # values that end in a literal dollar, and values that go on after it
+            cur = rnd.sample(['US', 'AU', 'NZ', 'CA', 'HK'], 3)
+            given = {cur[0] + '$': rnd.randint(1, 3), cur[1] + '$': rnd.randint(1, 3), cur[0] + '$100': rnd.randint(1, 2), cur[2] + '$250': rnd.randint(1, 4)}
+            kw, sizekw = {}, None
         elif mode == 1:
             given = list(ex) + [e for e in ex if e is not None]      # repeats
         elif mode == 2 and i % 8 == 2:
@@ -123,8 +134,9 @@ def run(chk):
         tid += 1
     # the module-level functions on hand-made, overlapping expressions (an Extractor rarely returns overlapping ones)
     from tdda.rexpy.rexpy import Examples, rex_coverage, rex_full_incremental_coverage, rex_incremental_coverage
-    PATS = ['^[a-z]+$', '^a.*$', '^.*[0-9]$', '^[a-z]{2}$', '^.+$', '^[0-9]+$', '^ab$', '^[a-z][a-z0-9]$', '^$']
-    EXS = ['ab', 'ac', 'a1', 'b2', '12', 'zz', 'abc', 'a', '', 'A1', 'é']
+    PATS = ['^[a-z]+$', '^a.*$', '^.*[0-9]$', '^[a-z]{2}$', '^.+$', '^[0-9]+$', '^ab$', '^[a-z][a-z0-9]$', '^$',
+            '^[A-Z][A-Z0-9]\\$$', '^[A-Z]{2}\\$[0-9]+$', '^.*\\$$']       # (expressions whose last character before the anchor is a literal dollar)
+    EXS = ['ab', 'ac', 'a1', 'b2', '12', 'zz', 'abc', 'a', '', 'A1', 'é', 'A1$', 'US$', 'US$100', 'NZ$2']
     for _ in range(1500 if thorough else 300):
         pats = rnd.sample(PATS, rnd.randint(1, 4))
         strings = rnd.sample(EXS, rnd.randint(1, 7))
